@@ -68,7 +68,7 @@ func sourceVerdict(p *Prog) (reject bool, why, tag string) {
 			case id < 1 && !allowNeg:
 				set(fmt.Sprintf("%s: field id %d < 1", where, id), "")
 			case id < -32768:
-				set(fmt.Sprintf("%s: field id %d < -32768", where, id), "D8")
+				set(fmt.Sprintf("%s: field id %d < -32768", where, id), "")
 			}
 			if seenID[id] {
 				set(fmt.Sprintf("%s: duplicate field id %d", where, id), "")
@@ -94,7 +94,7 @@ func sourceVerdict(p *Prog) (reject bool, why, tag string) {
 				seen := map[string]bool{}
 				for i, v := range enumValues(d) {
 					if v > 2147483647 || v < -2147483648 {
-						set(fmt.Sprintf("enum %s: value %d outside int32", d.Name, v), "D7")
+						set(fmt.Sprintf("enum %s: value %d outside int32", d.Name, v), "")
 					}
 					k := strings.ToLower(d.Items[i].Name)
 					if seen[k] {
@@ -114,14 +114,24 @@ func sourceVerdict(p *Prog) (reject bool, why, tag string) {
 					checkFields(d.Name+"."+fn.Name+" throws", fn.Excs, false)
 				}
 				if d.Parent == d.Name {
-					set("service "+d.Name+" extends itself", "D5")
+					set("service "+d.Name+" extends itself", "")
+				}
+				for _, d2 := range f.Defs {
+					if d2.Kind == 'V' && d2 != d && d.Parent == d2.Name && d2.Parent == d.Name {
+						set("services "+d.Name+" and "+d2.Name+" extend each other", "")
+					}
 				}
 			case 'C':
 				if d.Val.Kind == 'r' && d.Val.R == d.Name {
-					set("constant "+d.Name+" is defined as itself", "D6")
+					set("constant "+d.Name+" is defined as itself", "")
+				}
+				for _, d2 := range f.Defs {
+					if d2.Kind == 'C' && d2 != d && d.Val.Kind == 'r' && d.Val.R == d2.Name && d2.Val.Kind == 'r' && d2.Val.R == d.Name {
+						set("constants "+d.Name+" and "+d2.Name+" are defined as each other", "")
+					}
 				}
 				if b, ok := intBounds[d.Ty.Kind]; ok && d.Val.Kind == 'i' && (d.Val.I < b[0] || d.Val.I > b[1]) {
-					set(fmt.Sprintf("constant %s: %d outside %s", d.Name, d.Val.I, d.Ty.Kind), "D9")
+					set(fmt.Sprintf("constant %s: %d outside %s", d.Name, d.Val.I, d.Ty.Kind), "")
 				}
 			}
 		}
@@ -156,13 +166,13 @@ func checkValue(where string, src *CV, v compile.ConstantValue, t compile.TypeSp
 			if !isInt || int64(ci) != src.I {
 				*out = append(*out, violation{fmt.Sprintf("%s: literal %d compiled to %v", where, src.I, v), ""})
 			} else if src.I < lo || src.I > hi {
-				*out = append(*out, violation{fmt.Sprintf("%s: %d accepted for a type with range [%d, %d]", where, src.I, lo, hi), "D9"})
+				*out = append(*out, violation{fmt.Sprintf("%s: %d accepted for a type with range [%d, %d]", where, src.I, lo, hi), ""})
 			}
 		}
 		if e, ok := root.(*compile.EnumSpec); ok {
 			if ref, isRef := v.(compile.EnumItemReference); isRef {
 				if int64(ref.Item.Value) != src.I {
-					*out = append(*out, violation{fmt.Sprintf("%s: literal %d compiled to enum item %s.%s = %d", where, src.I, e.Name, ref.Item.Name, ref.Item.Value), "D9"})
+					*out = append(*out, violation{fmt.Sprintf("%s: literal %d compiled to enum item %s.%s = %d", where, src.I, e.Name, ref.Item.Name, ref.Item.Value), ""})
 				}
 			}
 		}
@@ -226,9 +236,7 @@ func c09Oracle(p *Prog, dir string, root *compile.Module) []violation {
 		for i, f := range fg {
 			if int64(f.ID) != ids[i] {
 				tag := ""
-				if allowNeg && ids[i] < -32768 {
-					tag = "D8"
-				}
+
 				out = append(out, violation{fmt.Sprintf("%s.%s: source designates field id %d, compiled id is %d", where, f.Name, ids[i], f.ID), tag})
 			}
 			if usedID[f.ID] {
@@ -267,9 +275,7 @@ func c09Oracle(p *Prog, dir string, root *compile.Module) []violation {
 					for i, v := range enumValues(def) {
 						if int64(e.Items[i].Value) != v {
 							tag := ""
-							if v > 2147483647 || v < -2147483648 {
-								tag = "D7"
-							}
+
 							out = append(out, violation{fmt.Sprintf("enum %s.%s: source designates %d, compiled value is %d", def.Name, e.Items[i].Name, v, e.Items[i].Value), tag})
 						}
 						k := strings.ToLower(e.Items[i].Name)
@@ -283,14 +289,14 @@ func c09Oracle(p *Prog, dir string, root *compile.Module) []violation {
 				if c := m.Constants[def.Name]; c != nil {
 					checkValue("const "+def.Name, def.Val, c.Value, c.Type, &out)
 					if selfConst(c, c.Value, 0) {
-						out = append(out, violation{"constant " + def.Name + " is defined in terms of itself", "D6"})
+						out = append(out, violation{"constant " + def.Name + " is defined in terms of itself", ""})
 					}
 				}
 			case 'V':
 				if s := m.Services[def.Name]; s != nil {
 					for q, n := s.Parent, 0; q != nil && n < 64; q, n = q.Parent, n+1 {
 						if q == s {
-							out = append(out, violation{"service " + def.Name + " inherits from itself", "D5"})
+							out = append(out, violation{"service " + def.Name + " inherits from itself", ""})
 							break
 						}
 					}
@@ -402,7 +408,7 @@ func c09Program(c *checker, p *Prog, how, probe string) {
 }
 
 // plantNumeric rewrites parts of a generated program around numeric boundaries.
-// It returns a label for the histogram. Known-finding shapes (D6–D9) are never planted.
+// It returns a label for the histogram. 
 func plantNumeric(r *rng.R, p *Prog, g *gen) string {
 	var structs, enums, svcs []*Def
 	for _, f := range p.Files {
@@ -483,7 +489,7 @@ func plantNumeric(r *rng.R, p *Prog, g *gen) string {
 		return label
 	}
 	// one planted defect that the compiler must reject
-	kind := r.Intn(11)
+	kind := r.Intn(17)
 	switch {
 	case kind == 0 && len(structs) > 0:
 		s := structs[r.Intn(len(structs))]
@@ -552,6 +558,78 @@ func plantNumeric(r *rng.R, p *Prog, g *gen) string {
 				break
 			}
 		}
+	case kind == 11 && len(enums) > 0:
+		// enum value outside int32 (explicit, or the implicit successor of 2147483647)
+		e := enums[r.Intn(len(enums))]
+		if r.Bool() {
+			v := []int64{2147483648, 4294967296, 4294967297, -2147483649, 9223372036854775807, -9223372036854775808}[r.Intn(6)]
+			e.Items = append(e.Items, EnumItem{Name: g.name("I"), Val: i64p(v)})
+		} else {
+			e.Items = append(e.Items, EnumItem{Name: g.name("I"), Val: i64p(2147483647)}, EnumItem{Name: g.name("I")})
+		}
+		label = "enum value outside int32"
+	case kind == 12 && len(structs) > 0 && !p.Strict:
+		s := structs[r.Intn(len(structs))]
+		if r.Bool() {
+			f := s.Fields[r.Intn(len(s.Fields))]
+			f.ID, f.IDLit = i64p([]int64{-32769, -40000, -65535, -65536, -2147483648, -9223372036854775808}[r.Intn(6)]), ""
+		} else {
+			// auto-assigned identifier after -32768
+			s.Fields[0].ID, s.Fields[0].IDLit = i64p(-32768), ""
+			s.Fields = append(s.Fields, &Field{Name: g.name("f"), Req: 'o', Ty: &TExpr{Kind: "i32"}})
+		}
+		label = "non-strict: field id below -32768"
+	case kind == 13:
+		f := p.Files[r.Intn(len(p.Files))]
+		ty := []string{"i8", "i16", "i32"}[r.Intn(3)]
+		b := intBounds[ty]
+		v := []int64{b[1] + 1, b[0] - 1, b[1] + 1 + (b[1]-b[0])/2, 4294967296, -4294967297, 9223372036854775807}[r.Intn(6)]
+		var d *Def
+		switch r.Intn(3) {
+		case 0:
+			d = &Def{Kind: 'C', Name: g.name("c"), Ty: &TExpr{Kind: ty}, Val: &CV{Kind: 'i', I: v}}
+		case 1:
+			d = &Def{Kind: 'C', Name: g.name("c"), Ty: &TExpr{Kind: "list", A: &TExpr{Kind: ty}}, Val: &CV{Kind: 'l', L: []*CV{{Kind: 'i', I: 1}, {Kind: 'i', I: v}}}}
+		default:
+			d = &Def{Kind: 'S', SKind: 's', Name: g.name("S"), Fields: []*Field{{ID: i64p(1), Name: g.name("f"), Req: 'o', Ty: &TExpr{Kind: ty}, Dflt: &CV{Kind: 'i', I: v}}}}
+		}
+		f.Defs = append(f.Defs, d)
+		label = "integer constant outside its type"
+	case kind == 14 && len(enums) > 0:
+		e := enums[r.Intn(len(enums))]
+		vals := enumValues(e)
+		if len(vals) > 0 {
+			v := vals[r.Intn(len(vals))]
+			if v >= -2147483648 && v <= 2147483647 {
+				file := p.Files[e.File]
+				file.Defs = append(file.Defs, &Def{Kind: 'C', Name: g.name("c"), Ty: &TExpr{Kind: "ref", Name: e.Name, Target: e}, Val: &CV{Kind: 'i', I: v + []int64{4294967296, -4294967296, 8589934592}[r.Intn(3)]}})
+				label = "enum constant equal to an item value modulo 2^32"
+			}
+		}
+	case kind == 15:
+		f := p.Files[r.Intn(len(p.Files))]
+		n := g.name("c")
+		ty := &TExpr{Kind: []string{"i32", "string", "list"}[r.Intn(3)]}
+		if ty.Kind == "list" {
+			ty.A = &TExpr{Kind: "i32"}
+		}
+		if r.Bool() {
+			f.Defs = append(f.Defs, &Def{Kind: 'C', Name: n, Ty: ty, Val: &CV{Kind: 'r', R: n}})
+		} else {
+			n2 := g.name("c")
+			f.Defs = append(f.Defs, &Def{Kind: 'C', Name: n, Ty: ty, Val: &CV{Kind: 'r', R: n2}}, &Def{Kind: 'C', Name: n2, Ty: ty, Val: &CV{Kind: 'r', R: n}})
+		}
+		label = "constant defined in terms of itself"
+	case kind == 16:
+		f := p.Files[r.Intn(len(p.Files))]
+		n := g.name("V")
+		if r.Bool() {
+			f.Defs = append(f.Defs, &Def{Kind: 'V', Name: n, Parent: n})
+		} else {
+			n2 := g.name("V")
+			f.Defs = append(f.Defs, &Def{Kind: 'V', Name: n, Parent: n2}, &Def{Kind: 'V', Name: n2, Parent: n})
+		}
+		label = "service that inherits from itself"
 	case kind == 10:
 		f := p.Files[r.Intn(len(p.Files))]
 		if len(f.Defs) > 0 {
@@ -580,5 +658,5 @@ func runC09(c *checker, r *rng.R) {
 		c09Program(c, p, "generated", "")
 	}
 	c.flush()
-	c.rep.Rule = "programs whose numeric literals sit around every type boundary (0, ±1, ±2^7, ±2^15, ±2^31, ±2^63 and neighbours; decimal, +signed and hex spellings): field identifiers explicit / unset (auto-negative in non-strict mode), enum values explicit / implicit, integer constants and defaults of i8/i16/i32/i64/double/bool/enum types (also inside lists, maps, struct literals, through typedefs), strict and non-strict mode; 40% carry one planted defect the compiler must reject (identifier above 32767 / below 1 / unset / duplicate, duplicate names, literal beyond int64, bool other than 0/1, enum value that is no item); oracle: compiled numbers equal the source and lie in range, else rejected; compared with the Lean model; every case non-trivial; distinct by program. Excluded by construction (probed from corpus/C09): D6 self constant, D7 enum value outside int32, D8 non-strict identifier below -32768, D9 integer constant outside its type / enum lookup by int32."
+	c.rep.Rule = "programs whose numeric literals sit around every type boundary (0, ±1, ±2^7, ±2^15, ±2^31, ±2^63 and neighbours; decimal, +signed and hex spellings): field identifiers explicit / unset (auto-negative in non-strict mode), enum values explicit / implicit, integer constants and defaults of i8/i16/i32/i64/double/bool/enum types (also inside lists, maps, struct literals, through typedefs), strict and non-strict mode; 40% carry one planted defect the compiler must reject (identifier above 32767 / below 1 / below -32768 / unset / duplicate, duplicate names, literal beyond int64, enum value outside int32, integer constant or default outside its i8/i16/i32 type, bool other than 0/1, enum value that is no item or equals one only modulo 2^32, constant or service defined in terms of itself); oracle: compiled numbers equal the source and lie in range, else rejected; compared with the Lean model; every case non-trivial; distinct by program. The shapes of the repaired findings D5 D6 D7 D8 D9 are ordinary planted defects and corpus entries."
 }
